@@ -1106,6 +1106,19 @@ CHECKS['C04']['text'] += (
     'object, for every expression, is in merged scalar normal form (build_merged), checked against the real class tree on every '
     'case. The driver\'s inner / linf / l2sq / repart / impart / scalef / powf leaf maps remain executed without theorem.')
 
+_count('C03', 32)
+CHECKS['C03']['text'] += (
+    ' FINAL ROUND: result ownership on the model: op(x) of a Sum / VectorSum / PointwiseProduct / LeftScalarMult / LeftVectorMult / '
+    'FunctionalLeftVectorMult node over any well-formed tree returns an object that did not exist before the call '
+    '(wrapper_result_is_new_object), and a second op(x) on the store left by the first returns the same value with x unchanged '
+    '(second_call_same_value).')
+_count('C10', 12)
+CHECKS['C10']['text'] += (
+    ' FINAL ROUND: the executed programs are stateless: the aliased result depends only on x and the closed-over data '
+    '(result_depends_only_on_x_and_data), and after ANY number of aliased calls on the same store the data are unchanged and x holds '
+    'the n-fold iterate of the map computed from a fresh store (history_invariant; aliasedCalls is executed by the driver and '
+    'compared with 3 aliased calls on the real operators).')
+
 NOT_YET = {}
 
 
